@@ -171,6 +171,8 @@ def readVA (c : Cfg) : P VA := do
     P.pure (.rle rows runs.elems.flatten vals)
   else if e = 3 then do
     let v ← readInt32 c
+    -- repair F20: a negative row count is refused (the skip branch would seek backwards)
+    if v < 0 then P.fail .invalidSize else
     let ps := packedSize v
     alloc c ps
     let bits ← readN ps.toNat
@@ -189,6 +191,7 @@ def skipVA (c : Cfg) : P Unit := do
     skipObjArr c vt
   else if e = 3 then do
     let v ← readInt32 c
+    if v < 0 then P.fail .invalidSize else
     seek (packedSize v)
   else P.fail .unknownEncoding
 
